@@ -1,7 +1,7 @@
 (* C45 — assembling the stage invariants into the chain theorem, and linking the per-kind list
    semantics [ksem] to the pipeline semantics [sem] of the operator description. *)
 From Coq Require Import ZArith List Bool Lia.
-From GV Require Import C45.Model C45.Trace C45.Sem C45.Chain C45.StageFlow C45.StageFused C45.StageBatch.
+From GV Require Import C45.Model C45.Trace C45.Sem C45.Chain C45.StageFlow C45.StageFused C45.StageBatch C45.StagePar.
 Import ListNotations.
 Open Scope Z_scope.
 
@@ -16,7 +16,7 @@ Definition kok (k : kind) : Prop :=
   | KFused os _ => Forall fuse_op os
   | KBatch n _ => (1 <= n)%nat
   | KBatch0 _ _ => False        (* the batch actor before the repair: refuted below *)
-  | KPar _ _ _ _ => False       (* parallel stage: tied by conformance only, see C45_*_partial *)
+  | KPar ordered _ _ _ => ordered = true   (* OrderedParallelMap; the unordered stage has its own theorem *)
   end.
 
 Definition NInv (k : kind) (n : node kstate) : Prop :=
@@ -24,13 +24,14 @@ Definition NInv (k : kind) (n : node kstate) : Prop :=
   | KFlow o c => FlowInv o c n
   | KFused os c => FusedInv os c n
   | KBatch b c => BatchInv b c n
+  | KPar true w a b => ParInv w a b n
   | _ => False
   end.
 
 Lemma N0 k : kok k -> NInv k (mk_node (kinit k)).
 Proof.
   destruct k; simpl; intros H; try contradiction.
-  - apply flow_N0. - apply fused_N0. - apply batch_N0; exact H.
+  - apply flow_N0. - apply fused_N0. - apply batch_N0; exact H. - subst. apply par_N0.
 Qed.
 
 Lemma N1 k n m n' ds us : kok k -> NInv k n -> n_alive n = true ->
@@ -41,18 +42,19 @@ Proof.
   - eapply flow_N1; eauto. destruct m; auto.
   - eapply fused_N1; eauto. destruct m; auto.
   - eapply batch_N1; eauto. destruct m; auto.
+  - subst. eapply par_N1; eauto.
 Qed.
 
 Lemma N2 k n S : kok k -> NInv k n -> n_cancelled n = false -> approx (n_cin n) S -> approx (n_cout n) (ksem k S).
 Proof.
   destruct k; simpl; intros K Hi Hc Ap; try contradiction.
-  - eapply flow_N2; eauto. - eapply fused_N2; eauto. - eapply batch_N2; eauto.
+  - eapply flow_N2; eauto. - eapply fused_N2; eauto. - eapply batch_N2; eauto. - subst. eapply par_N2; eauto.
 Qed.
 
 Lemma N4 k n : kok k -> NInv k n -> wf_trace (n_cout n).
 Proof.
   destruct k; simpl; intros K Hi; try contradiction.
-  - eapply flow_N4; eauto. - eapply fused_N4; eauto. - eapply batch_N4; eauto.
+  - eapply flow_N4; eauto. - eapply fused_N4; eauto. - eapply batch_N4; eauto. - subst. eapply par_N4; eauto.
 Qed.
 
 (* a stage that sends streamCancel upstream stops in the same handler *)
@@ -60,19 +62,31 @@ Lemma batch_cancel_shuts n c st m st' acts : (1 <= n)%nat -> batch_recv n c st m
   In UCancel (ups acts) -> shuts acts = true.
 Proof.
   intros Hn. destruct m as [[[x|l]| |e]|[k|]|s]; simpl.
-  - destruct (batch_drain n _) as [st2 a2] eqn:Hd. destruct (batch_request c st2) as [st3 a3] eqn:Hq.
+  - destruct (batch_drain n _) as [st2 a2] eqn:Hd. destruct (batch_request n c st2) as [st3 a3] eqn:Hq.
     intros H; inversion H; subst. destruct (batch_drain_spec n Hn _ _ _ Hd) as [_ [Bs [_ [_ [Hu _]]]]].
-    destruct (batch_request_spec c _ _ _ Hq) as [_ [_ [_ [_ Hn3]]]].
+    destruct (batch_request_spec n c _ _ _ Hq) as [_ [_ [_ [_ Hn3]]]].
     rewrite ups_app, Hu. simpl. intros Hin. contradiction.
   - intros H; inversion H; subst. simpl. auto.
   - intros Hd. destruct (batch_drain_spec n Hn _ _ _ Hd) as [_ [Bs [_ [_ [Hu _]]]]]. rewrite Hu. intros [].
   - intros H; inversion H; subst. simpl. intros [].
-  - destruct (batch_drain n _) as [st2 a2] eqn:Hd. destruct (batch_request c st2) as [st3 a3] eqn:Hq.
+  - destruct (batch_drain n _) as [st2 a2] eqn:Hd. destruct (batch_request n c st2) as [st3 a3] eqn:Hq.
     intros H; inversion H; subst. destruct (batch_drain_spec n Hn _ _ _ Hd) as [_ [Bs [_ [_ [Hu _]]]]].
-    destruct (batch_request_spec c _ _ _ Hq) as [_ [_ [_ [_ Hn3]]]].
+    destruct (batch_request_spec n c _ _ _ Hq) as [_ [_ [_ [_ Hn3]]]].
     rewrite ups_app, Hu. simpl. intros Hin. contradiction.
   - intros H; inversion H; subst. simpl. auto.
   - intros H; inversion H; subst. simpl. intros [].
+Qed.
+
+Lemma par_cancel_shuts ordered a b st m st' acts : par_recv ordered a b st m = (st', acts) ->
+  In UCancel (ups acts) -> shuts acts = true.
+Proof.
+  destruct m as [[[x|l]| |e]|[k|]|s]; cbn [par_recv]; try (intros H; inversion H; subst; simpl; auto; intros; contradiction).
+  - intros H; inversion H; subst; simpl. destruct (p_tasks st); simpl; intros; contradiction.
+  - destruct (remove_task s (p_tasks st)) as [[v|] tasks']; [|intros H; inversion H; subst; simpl; intros; contradiction].
+    match goal with |- context [if ordered then ?x else ?y] => destruct (if ordered then x else y) as [[nx pd] outs] end.
+    intros H; inversion H; subst; clear H. rewrite !ups_app, ups_elems. simpl.
+    destruct (p_updone st); simpl; [destruct tasks'; simpl; intros; contradiction|].
+    intros [F|F]; [discriminate|]. destruct tasks'; simpl in F; contradiction.
 Qed.
 
 Lemma N3 k n m n' ds us : kok k -> node_handle (krecv k) n m = (n', ds, us) -> In UCancel us -> n_alive n' = false.
@@ -90,6 +104,8 @@ Proof.
       try (rewrite Hu in Hin; contradiction).
   - destruct (batch_recv n0 c st m) as [st' a] eqn:Hr. inversion R; subst.
     eapply batch_cancel_shuts; eauto.
+  - destruct (par_recv ordered a b st m) as [st' a0] eqn:Hr. inversion R; subst.
+    eapply par_cancel_shuts; eauto.
 Qed.
 
 (* ---------- the chain theorem for every covered materialisation ---------- *)
